@@ -97,6 +97,18 @@ def make_args(xgi, fn, argseed):
             # connected, no isolated nodes (the Laplacian needs it)
             H = xgi.Hypergraph([[i, (i + 1) % n] for i in range(n)] + edges)
             kw = {"k": r.choice([2, 3])}
+            if r.random() < 0.4:
+                # highly symmetric networks have degenerate spectra: the eigensolver restarts
+                from itertools import combinations
+                n = r.randint(4, 6)
+                shape = r.choice(["complete2", "complete23", "ring"])
+                if shape == "ring":
+                    H = xgi.Hypergraph([[i, (i + 1) % n] for i in range(n)])
+                else:
+                    es = [list(c) for c in combinations(range(n), 2)]
+                    if shape == "complete23":
+                        es += [list(c) for c in combinations(range(n), 3)]
+                    H = xgi.Hypergraph(es)
         return ("net", (H, kw))
     return None
 
